@@ -65,6 +65,45 @@ fn fallback_snapshot() -> i32 {
     }
 }
 
+/// A damaged snapshot *name* in the MANIFEST (one flipped bit in its decimal digits) that names no existing file and a lower
+/// number than the real latest snapshot: start-up must be refused or come up with exactly the pre-damage collection
+/// (the unchanged tree finds the real newest snapshot).  Falling back to an OLDER snapshot here loses the compacted segments.
+fn manifest_names_missing_snapshot() -> i32 {
+    let tmp = tempfile::TempDir::new().unwrap();
+    let dir = tmp.path();
+    let b = open_new(dir, DistanceMetric::Euclidean, 0, 256);
+    for id in 1..=10u64 { b.insert(id, vec_for(id, 4), HashMap::new()).unwrap(); }
+    b.create_snapshot().unwrap();
+    std::thread::sleep(Duration::from_millis(2200)); // names are timestamp based: leave room for a number strictly in between
+    for id in 11..=20u64 { b.insert(id, vec_for(id, 4), HashMap::new()).unwrap(); }
+    b.delete(3).unwrap();
+    b.create_snapshot().unwrap();
+    let before = census(&b, 1..=20);
+    drop(b);
+    let mpath = dir.join("MANIFEST");
+    let mut manifest: serde_json::Value = serde_json::from_str(&std::fs::read_to_string(&mpath).unwrap()).unwrap();
+    let name = manifest["latest_snapshot"].as_str().unwrap_or("").to_string();
+    let num: u64 = match name.trim_start_matches("snapshot_").trim_end_matches(".snap").parse() { Ok(n) => n, Err(_) => { println!("NOT-REPRODUCED: snapshot name not numeric: {}", name); return 0; } };
+    let snaps = newest(dir, "snapshot_", ".snap");
+    if snaps.len() < 2 { println!("NOT-REPRODUCED: fewer than two snapshot files kept ({})", snaps.len()); return 0; }
+    let damaged = format!("snapshot_{}.snap", num - 1);
+    if dir.join(&damaged).exists() { println!("NOT-REPRODUCED: the damaged name happens to exist"); return 0; }
+    manifest["latest_snapshot"] = serde_json::Value::String(damaged.clone());
+    std::fs::write(&mpath, serde_json::to_vec_pretty(&manifest).unwrap()).unwrap();
+    match recover(dir, DistanceMetric::Euclidean) {
+        Err(e) => { println!("NOT-REPRODUCED: strict recovery refused: {}", e); 0 }
+        Ok(r) => {
+            let after = census(&r, 1..=20);
+            if after == before { println!("NOT-REPRODUCED: recovered collection equals the pre-damage collection"); 0 }
+            else {
+                let diff: Vec<u64> = before.iter().zip(after.iter()).filter(|(a, b)| a != b).map(|(a, _)| a.0).collect();
+                println!("REPRODUCED: MANIFEST names {} (missing; real latest is {}): strict recovery succeeded from an older snapshot; documents missing/altered/resurrected: {:?}", damaged, name, diff);
+                1
+            }
+        }
+    }
+}
+
 /// F-n: a NON-final WAL segment cut at a frame boundary (every remaining frame is intact) is indistinguishable from a
 /// shorter segment: nothing records how many frames a closed segment holds and recovery does not check that sequence
 /// numbers continue from one frame / segment to the next, so strict start-up succeeds without the cut-off entries.
@@ -556,6 +595,7 @@ fn main() {
         Some("prune-breaks-chain") => prune_breaks_chain(),
         Some("incremental-after-snapshot") => incremental_after_snapshot(),
         Some("pitr-siblings") => pitr_siblings(),
+        Some("manifest-names-missing-snapshot") => manifest_names_missing_snapshot(),
         Some("periodic-idle") => periodic_idle(),
         Some("periodic-idle-inner") => periodic_idle_inner(args.get(2).map(|s| s.as_str()).unwrap_or("/nonexistent")),
         Some("crash-after-unlink") => crash_after_unlink(),
